@@ -210,10 +210,22 @@ class _randobj:
     
                                     model.add_field(fo._int_field_info.model)
                     
+                        # Declare the blocks of all dynamic constraints first, so
+                        # that a constraint can reference a dynamic constraint of 
+                        # this object that is elaborated after it
+                        for f in dir(self):
+                            if not f.startswith("__") and not f.startswith("_int"):
+                                fo = object.__getattribute__(self, f)
+                                if isinstance(fo, dynamic_constraint_t):
+                                    block = ConstraintBlockModel(f)
+                                    block.srcinfo = fo.srcinfo
+                                    block.is_dynamic = True
+                                    model.add_dynamic_constraint(block)
+                    
                                 # Now, elaborate the constraints
                         for f in dir(self):
                             if not f.startswith("__") and not f.startswith("_int"):
-                                fo = getattr(self, f)
+                                fo = object.__getattribute__(self, f)
                                 if isinstance(fo, constraint_t):
                                     clear_exprs()
                                     block = ConstraintBlockModel(f)
@@ -232,8 +244,8 @@ class _randobj:
                                     clear_exprs()
                                 elif isinstance(fo, dynamic_constraint_t):
                                     clear_exprs()
-                                    block = ConstraintBlockModel(f)
-                                    block.srcinfo = fo.srcinfo
+                                    block = model.constraint_dynamic_model_l[
+                                        model.constraint_dynamic_m[f]]
                                     push_constraint_scope(block)
                                     try:
                                         fo.c(self)
@@ -244,8 +256,6 @@ class _randobj:
                                         clear_exprs()
                                         raise e
                                     fo.set_model(pop_constraint_scope())
-                                    fo.model.is_dynamic = True
-                                    model.add_dynamic_constraint(fo.model)
                                     clear_exprs()
     
                 self._int_field_info.model.name = name
